@@ -84,6 +84,8 @@ def run(ck):
     ck.rule("C09.R13", "a veto reaches every layer of a Vec: the Vec's published interest never promises more than its `enabled` (= all elements) will allow (as C08.R6)", floor=3)
     ck.rule("C09.R14", "no layer misses a notification because of per-filter state left over from an earlier emission (bitmap typestate, as C07.R5)", floor=100)
     ck.rule("C09.R14s", "effect summaries behind C09.R14 (as C07.R5s)", floor=9)
+    ck.rule("C09.R16", "an absent optional layer is absent: with None, enabled / event_enabled answer true and register_callsite answers always, so it vetoes "
+            "nothing the rest of the stack wants (its hint OFF is corrected at composition, C08.R6)", floor=3)
     ck.rule("C09.R15", "stack construction wires what the call says: and_then / with_collector / with_filter / boxed build their wrapper from (new layer, what it goes on top of) in that order, and with_collector lets the layer see the collector first (on_subscribe)", floor=4)
     ck.rule("C09.R5", "Layered::pick_interest asks the inner value on every path except the outer `never` veto", floor=1)
 
@@ -94,6 +96,7 @@ def run(ck):
     check_pick_interest(ck, F)
     layered_drop_span(ck, F)
     composition_constructors(ck, F)
+    option_none_neutral(ck, F)
     from rules import C07 as _C07
     _C07.r5(ck, Facts("release"), rid="C09.R14")
     from rules import C08 as _C08
@@ -687,19 +690,19 @@ def check_pick_interest(ck, F, rid="C09.R5"):
         ck.ok(rid, "pick_interest: inner asked exactly once unless outer is never", fn=b.path, detail="%d return paths" % n)
 
 
-def layered_drop_span(ck, F):
+def layered_drop_span(ck, F, rid="C09.R2"):
     """The deprecated Collect::drop_span is still what Dispatch/Box/Arc forward when an old-style caller drops an id: on
     a Layered stack it has to be a close like any other -- the stack's own try_close (inner try_close, then the layer's
     on_close), on every path."""
     b = F.impl_method(COLLECT, "tracing_subscriber::subscribe::layered::Layered", "drop_span")
     key = "Layered::drop_span closes through the stack's try_close"
-    if not ck.anchor("C09.R2", "Layered::drop_span", b):
+    if not ck.anchor(rid, "Layered::drop_span", b):
         return
     tc = [bb for bb, t in b.calls() if t["callee"].get("method") == "try_close" and b.origin(t["argv"][0])[0] == "arg"]
     if len(tc) == 1 and b.postdominates(tc[0], 0):
-        ck.ok("C09.R2", key, fn=b.path)
+        ck.ok(rid, key, fn=b.path)
     else:
-        ck.bad("C09.R2", key, where(b.raw["sp"]), "drop_span does not reach self.try_close on every path: an id dropped through the deprecated entry point "
+        ck.bad(rid, key, where(b.raw["sp"]), "drop_span does not reach self.try_close on every path: an id dropped through the deprecated entry point "
                "(Box/Arc/Dispatch forward it) never closes -- no layer sees on_close and the registry keeps the span", fn=b.path)
 
 
@@ -744,6 +747,46 @@ def dispatch_forwarding(ck, F, rid="C09.R4", only=None):
             ck.bad(rid, key, where(b.raw["sp"]), "; ".join(sorted(set(problems))[:3]) or "no returning path", fn=b.path)
         else:
             ck.ok(rid, key, fn=b.path)
+
+
+def option_none_neutral(ck, F, rid="C09.R16"):
+    from rulekit.sym import PathEval, show
+    SUB = "tracing_subscriber::subscribe::Subscribe"
+    NEUTRAL = {"enabled": ("1",), "event_enabled": ("1",), "register_callsite": ("always()",)}
+    imps = [i for i in F.impls_of(SUB) if i["self_ty"].startswith("core::option::Option<")]
+    if not ck.anchor(rid, "Subscribe for Option<S>", imps[0] if imps else None):
+        return
+    for m, neutral in NEUTRAL.items():
+        b = F.body(imps[0]["methods"].get(m) or "")
+        key = "Subscribe for Option<S>::%s: None answers %s" % (m, neutral[0].replace("1", "true"))
+        if not ck.anchor(rid, "Option<S>::" + m, b):
+            continue
+        bad, decided = [], 0
+        for p in PathEval(b).run():
+            if p.end != "return" or p.ret is None:
+                continue
+            r = p.ret
+            txt = show(r)
+            if r[0] == "call" and r[1].rsplit("::", 1)[-1] == m:
+                continue                                    # the Some arm: forwarded
+            if r[0] == "call" and r[1].rsplit("::", 1)[-1] in ("map_or", "unwrap_or", "map_or_else", "unwrap_or_else", "is_none_or"):
+                # combinator spelling: the default operand is the None answer
+                dflt = [show(a) for a in r[2][1:]]
+                if r[1].endswith("is_none_or") and m != "register_callsite":
+                    decided += 1
+                    continue
+                if any(d in neutral or d.endswith("Interest::always") for d in dflt):
+                    decided += 1
+                elif any(d in ("0", "never()", "sometimes()") or d.endswith("Interest::never") or d.endswith("Interest::sometimes") for d in dflt):
+                    bad.append("None answers %s" % dflt)
+                continue
+            decided += 1
+            if txt not in neutral:
+                bad.append("a path that does not ask the inner layer answers %s" % txt[:60])
+        if bad:
+            ck.bad(rid, key, where(b.raw["sp"]), "; ".join(sorted(set(bad))) + ": the placeholder vetoes (or forces re-asking for) what every other layer of the stack wants", fn=b.path)
+        else:
+            ck.ok(rid, key, fn=b.path, detail="%d deciding path(s)" % decided, nontrivial=bool(decided))
 
 
 def composition_constructors(ck, F, rid="C09.R15"):
